@@ -29,15 +29,53 @@ func runC03(c *core.Ctx) {
 			}
 		}
 		c.Check(vec != nil, "vector is the merged clock of the block's Atropos", "provenance", f.Pos(), "GetMergedHighestBefore(atropos)", "the cheater list is not computed from the Atropos' merged vector clock")
-		var loop *ast.RangeStmt
+		// the loop over the validators: a range over the canonical ids, or a counted loop 0..Len()
+		var loop ast.Stmt
+		var ix, val *types.Var
+		isCreator := func(e ast.Expr) bool { return val != nil && varOf(f, e) == val }
 		f.InspectOwn(func(n ast.Node) bool {
-			if rs, ok := n.(*ast.RangeStmt); ok && loop == nil {
-				loop = rs
+			if loop != nil {
+				return true
+			}
+			switch s := n.(type) {
+			case *ast.RangeStmt:
+				loop = s
+				ix, val = varOf(f, s.Key), varOf(f, s.Value)
+			case *ast.ForStmt:
+				loop = s
+				if as, ok := s.Init.(*ast.AssignStmt); ok && len(as.Lhs) == 1 && len(as.Rhs) == 1 && core.IsConstInt(f.Info(), core.StripConv(f.Info(), as.Rhs[0]), 0) {
+					ix = varOf(f, as.Lhs[0])
+				}
+				okBound := false
+				if ix != nil && s.Cond != nil {
+					lc, k := core.NormLinCmp(f.Info(), core.Fact{Expr: s.Cond, Truth: true}, func(e ast.Expr) string {
+						if varOf(f, e) == ix {
+							return "i"
+						}
+						if call, isC := ast.Unparen(e).(*ast.CallExpr); isC && calleeName(f, call) == "inter/pos.Validators.Len" {
+							return "n"
+						}
+						return ""
+					})
+					okBound = k && lc.Equal(core.ParseLinCmp("i - n + 1 <= 0"))
+				}
+				inc, isInc := s.Post.(*ast.IncDecStmt)
+				okStep := isInc && inc.Tok == token.INC && varOf(f, inc.X) == ix
+				c.Check(okBound && okStep, "counted loop covers every validator index", "T8 (normalised bound)", s.Pos(), "for i := 0; i < validators.Len(); i++", "the loop over validator indexes does not run from 0 to Len()-1 inclusive: the last (or first) validators can never be listed as cheaters")
+				// creator of iteration i: validators.GetID(i) / ids[i]
+				isCreator = func(e ast.Expr) bool {
+					if call, isC := ast.Unparen(e).(*ast.CallExpr); isC && calleeName(f, call) == "inter/pos.Validators.GetID" && len(call.Args) == 1 {
+						return varOf(f, core.StripConv(f.Info(), call.Args[0])) == ix
+					}
+					if ie, isI := ast.Unparen(e).(*ast.IndexExpr); isI {
+						return varOf(f, core.StripConv(f.Info(), ie.Index)) == ix
+					}
+					return false
+				}
 			}
 			return true
 		})
-		c.Need(loop != nil, "applyAtropos ranges over the validators")
-		ix, val := varOf(f, loop.Key), varOf(f, loop.Value)
+		c.Need(loop != nil, "applyAtropos loops over the validators")
 		// appends
 		var cheaters *types.Var
 		nApp := 0
@@ -55,8 +93,8 @@ func runC03(c *core.Ctx) {
 			}
 			cheaters = v
 			nApp++
-			inLoop := enclosingLoop(f, a.Stmt.Pos()) == ast.Stmt(loop)
-			okVal := len(ap.Args) == 2 && varOf(f, ap.Args[1]) == val && val != nil
+			inLoop := enclosingLoop(f, a.Stmt.Pos()) == loop
+			okVal := len(ap.Args) == 2 && isCreator(ap.Args[1])
 			// guarded by vec.Get(idx(i)).IsForkDetected()
 			okG, _ := f.GuardedBy(a.Pt, func(ft core.Fact) bool {
 				if !ft.Truth {
